@@ -338,12 +338,14 @@ impl Function {
             | Function::Md5
             | Function::CastAsText
             | Function::CastAsFloat
-            | Function::CastAsInteger
-            | Function::CastAsBoolean
             | Function::CastAsDateTime
-            | Function::CastAsDate
-            | Function::CastAsTime
             | Function::Unhex => true,
+            // casts to integer, boolean, date or time lose information (1.2 and 1.4 both cast to 1):
+            // they do not preserve uniqueness
+            Function::CastAsInteger
+            | Function::CastAsBoolean
+            | Function::CastAsDate
+            | Function::CastAsTime => false,
             _ => false,
         }
     }
